@@ -45,6 +45,8 @@ class C08(InvProp):
                         scn['controls'].append({'name': 'cut%d' % (len(scn['controls']) + 1), 'kind': 'simple', 'cond': {'t': 'simtime', 'rel': '=', 'thr': int(t1)},
                                                 'then': [{'link': at[0]['id'], 'attr': 'status', 'value': 'OPEN'}], 'priority': 3})
         e1.add_faults(rng, scn, p_pause=0.45, p_rescue=0.1)
+        if rng.chance(0.15):
+            scn['edits'] = e1.gen_edits(rng, scn)
         return scn
 
     def oracle(self, scn, out, c):
